@@ -208,6 +208,13 @@ func checkWeightedModel(run *core.Run, m *openfgav1.AuthorizationModel, r *rand.
 		if !v.OK {
 			outcomes["OK"]++
 			viol("C05", "accepts-not-well-founded:"+v.Reason, want, how+": accepted\n"+gen.PPModel(m))
+			if R.Reach {
+				// the reach sets are valid although the verdict is negative (empty intersection / relation):
+				// C04's "weights for exactly the user types that can reach the node" is still decidable
+				for _, d := range ref.CompareReach(g, R) {
+					viol("C04", "weight-keys-differ-from-reachable-types", "weight keys = user types that can reach the node", how+": "+d.Msg+"\n"+gen.PPModel(m))
+				}
+			}
 			return
 		}
 		canon := ref.CanonWeighted(g)
@@ -508,9 +515,11 @@ func wgModelOpt(prop string) gen.ModelOpt {
 	case "C05":
 		return gen.ModelOpt{Hazards: true}
 	case "C10":
-		return gen.ModelOpt{Conditions: true}
+		return gen.ModelOpt{Conditions: true, Shapes: true}
 	case "C11":
-		return gen.ModelOpt{Wildcards: 4, Conditions: false, MaxTerm: 5}
+		return gen.ModelOpt{Wildcards: 4, Conditions: false, MaxTerm: 5, Shapes: true}
+	case "C04":
+		return gen.ModelOpt{Shapes: true}
 	case "C06":
 		return gen.ModelOpt{Hazards: true, Wildcards: 2}
 	}
